@@ -345,8 +345,6 @@ pub fn run(ctx: &Ctx) -> &'static str {
         || stream_strategy(40),
         |_| check_stream,
     );
-    if ctx.tier == crate::rt::Tier::Thorough {
-        crate::props::e2e::run(ctx, crate::props::e2e::Phase::Keepalive, 1);
-    }
+    crate::props::e2e::run(ctx, crate::props::e2e::Phase::Keepalive, ctx.tier.pick(1, 3));
     "exploration"
 }
